@@ -45,6 +45,8 @@ def run(ctx):
                 probs.append("verifies under a different key")
             if g["tampered"]:
                 probs.append("still verifies after changing byte(s) %s" % g["tampered"][:5])
+            if g.get("resigned"):
+                probs.append("still verifies with the signature numbers re-encoded as %s" % ", ".join(g["resigned"]))
             if g["field_diff"]:
                 probs.append("parsed fields differ from the template: %s" % g["field_diff"][:4])
         if probs:
